@@ -382,21 +382,26 @@ def _r2(ctx):
         ctx.violated(f, masks["_infinite_zone"][0], "zone masks %s / %s do not partition the tests at the transition" %
                      (norm_text(masks["_finite_zone"][1]), norm_text(masks["_infinite_zone"][1])))
     h = prog.func(PKG + "fatigue_data:FatigueData._half_level_above_highest_runout")
-    rets = [x for x in walk_function(h.node) if isinstance(x, ast.Return) and isinstance(x.value, ast.BinOp)]
-    okh = False
-    if rets:
-        v = rets[0].value
-        terms = []
-        if isinstance(v.op, ast.Div) and const_value(v.right) == 2 and isinstance(v.left, ast.BinOp) and isinstance(v.left.op, ast.Add):
-            terms = [norm_text(v.left.left), norm_text(v.left.right)]
-        okh = sorted(terms) == sorted(["self._finite_zone.load.min()", "self.max_runout_load"])
-    if okh:
+    from ..absint import Interp, TermDomain, term_alternatives
+    tv = Interp(prog, TermDomain(), follow=lambda c_: False).run(h, [])
+    want = {("m", ("attr", ("self", "_finite_zone"), "load"), "min", (), ()), ("self", "max_runout_load")}
+    mids = []
+    for alt in term_alternatives(tv):
+        if isinstance(alt, tuple) and len(alt) == 4 and alt[:2] == ("op", "/") and alt[3] in (("c", 2), ("c", 2.0)) and \
+                isinstance(alt[2], tuple) and alt[2][:2] == ("op", "+"):
+            mids.append({alt[2][2], alt[2][3]})
+    rets = [x for x in walk_function(h.node) if isinstance(x, ast.Return) and x.value is not None]
+    if mids and all(m_ == want for m_ in mids):
         ctx.holds(h, rets[0], "reported transition = midpoint of the lowest finite-zone load and the highest run-out load: it lies "
                   "between the two zones the split produced")
-    else:
-        ctx.violated(h, rets[0] if rets else h.node, "the reported transition is %s, not the midpoint between the lowest load of the "
+    elif mids:
+        ctx.violated(h, rets[0] if rets else h.node, "the reported transition is the midpoint of %r, not of the lowest load of the "
                      "finite zone and the highest run-out load: tests of the infinite zone can lie above the reported transition"
-                     % (norm_text(rets[0].value) if rets else "?"), text="transition midpoint")
+                     % (sorted(mids[0], key=repr),), text="transition midpoint")
+    else:
+        ctx.violated(h, rets[0] if rets else h.node, "the reported transition is not the midpoint between the lowest load of the "
+                     "finite zone and the highest run-out load: tests of the infinite zone can lie above the reported transition",
+                     text="transition midpoint")
     g = prog.func(PKG + "fatigue_data:FatigueData._calc_finite_zone")
     c = [c for c in calls_in(g.node) if isinstance(c.func, ast.Attribute) and c.func.attr == "_calc_finite_zone_manual"]
     if len(c) == 1 and is_self_attr(c[0].args[0], "max_runout_load"):
